@@ -52,10 +52,17 @@ def run_driver(cases_path, out_path):
     if p.returncode != 0:
         raise RuntimeError("driver failed: " + p.stderr[-2000:])
 
+def prop_module(prop):
+    """the root module of a property: Props/<prop>All.lean when tools/mkties.py wrote one (it adds theorems proved in
+    modules that themselves import Props/<prop>.lean), else Props/<prop>.lean"""
+    if os.path.exists(os.path.join(LEAN, "CircuitProofs", "Props", prop + "All.lean")):
+        return "CircuitProofs.Props." + prop + "All"
+    return "CircuitProofs.Props." + prop
+
 def audit(prop):
     """Build CircuitProofs.Props.<prop>, enumerate every theorem in namespace CM.Props.<prop> and its axioms.
     returns dict(ok, theorems=[{name, axioms, ok}], build_output)"""
-    mod = "CircuitProofs.Props." + prop
+    mod = prop_module(prop)
     ok, out = lake_build([mod, "CircuitProofs.Audit"])
     res = {"ok": False, "theorems": [], "build_ok": ok, "build_output": out[-4000:] if not ok else ""}
     if not ok:
